@@ -78,6 +78,27 @@ func c01Scenarios(tier string) []*Scenario {
 				}
 			}
 		}
+		// Header() asked for by another goroutine while a receive is under way (a tracing wrapper, a proxy)
+		for _, kind := range []string{"ss", "bd"} {
+			for _, hdr := range [][]string{nil, {"h:a"}} {
+				add(tr, RPC{Kind: kind, Client: []string{"S0", "C", "R*"}, Client2: []string{"H"}, Handler: cat([]string{"r*"}, hdr, sends("s", 2), []string{"ret:ok"})})
+			}
+		}
+		add(tr, RPC{Kind: "ss", Client: []string{"S0", "C", "R*"}, Client2: []string{"H", "H"}, Handler: []string{"r*", "s0", "s1", "s2", "ret:ok"}})
+		// the call's context ends at any instant: the call may fail, but if it reports a clean end
+		// the receiver has obtained everything
+		for _, c := range []string{"cancel", "deadline"} {
+			for _, rpc := range []RPC{
+				{Kind: "ss", Client: []string{"S0", "C", "R*"}, Handler: []string{"r", "s0", "s1", "ret:ok"}},
+				{Kind: "bd", Client: []string{"S0", "S1", "C", "R*"}, Handler: []string{"r*", "s0", "s1", "ret:ok"}},
+			} {
+				sc := &Scenario{Prop: "C01", Name: c + "|" + rpcName(rpc), Transport: tr, Cancel: c, RPCs: []RPC{rpc}, Bound: -1}
+				if c == "deadline" {
+					sc.Opts = "timers"
+				}
+				out = append(out, sc)
+			}
+		}
 		// two RPCs at once on one channel
 		add(tr, unary, unary)
 		add(tr, unary, RPC{Kind: "ss", Client: []string{"S0", "C", "R*"}, Handler: []string{"r", "s0", "s1", "ret:ok"}})
@@ -106,7 +127,9 @@ func c01Oracle(sc *Scenario, rec *Rec, s *mc.Sched) []mc.Violation {
 		success := rr.FinalErr == "nil" || (rpc.Kind != "unary" && rr.FinalErr == "EOF") ||
 			(rr.FinalErr == "" && rpc.Kind == "cs" && len(rr.RecvRes) == 1 && rr.RecvRes[0] == "nil")
 		if !success {
-			add("call-failed", "final result "+normFinal(rr.FinalErr)+" in a fault-free scenario")
+			if sc.Cancel == "" {
+				add("call-failed", "final result "+normFinal(rr.FinalErr)+" in a fault-free scenario")
+			}
 			continue
 		}
 		if !eqStrs(rr.CliRecv, ref.Msgs) {
